@@ -388,6 +388,21 @@ static void case_poly(Tape &t, Ctx &cx)
     Q sd = 0;
     for (unsigned i = 0; i < n; ++i) { sd += abs(Q(a[i]) * qpow(qx, n - 1 - i)); }
     R e1 = a_poly_eval(p, n, x), e2 = a_poly_evar(p, n, x);
+    {
+        // the coefficient vector is a const input: the same calls on a copy in read-only memory give the same bits
+        RoBlock ro(a.data(), sizeof(R) * n, sizeof(R));
+        R const *rp = (R const *)ro.p;
+        if (rp)
+        {
+            R r1 = a_poly_eval(rp, n, x), r2 = a_poly_evar(rp, n, x);
+            VP_CHECK(cx, memcmp(&r1, &e1, sizeof(R)) == 0 && memcmp(&r2, &e2, sizeof(R)) == 0, "poly:readonly_input_differs", "a_poly_eval / a_poly_evar on a read-only copy of the coefficients give %.17g / %.17g instead of %.17g / %.17g", r1, r2, e1, e2);
+            if (n)
+            {
+                R r3 = a_poly_eval_(rp, rp + n, x), r4 = a_poly_evar_(rp, rp + n, x);
+                VP_CHECK(cx, memcmp(&r3, &e1, sizeof(R)) == 0 && memcmp(&r4, &e2, sizeof(R)) == 0, "poly:readonly_input_differs", "a_poly_eval_ / a_poly_evar_ on a read-only copy give %.17g / %.17g instead of %.17g / %.17g", r3, r4, e1, e2);
+            }
+        }
+    }
     double b1 = (2.0 * n + 2) * U_ * qabs_d(sa) * 2 + FLOOR_, b2 = (2.0 * n + 2) * U_ * qabs_d(sd) * 2 + FLOOR_;
     VP_CHECK(cx, qabs_d(Q(e1) - up) <= b1, "poly:eval", "a_poly_eval(n=%u, x=%.17g) = %.17g, exact ascending-order value %.17g", n, x, e1, up.get_d());
     VP_CHECK(cx, qabs_d(Q(e2) - down) <= b2, "poly:evar", "a_poly_evar(n=%u, x=%.17g) = %.17g, exact descending-order value %.17g", n, x, e2, down.get_d());
